@@ -81,15 +81,33 @@ def run_row(row):
     from openhtf.core import phase_executor as pe
     orig_fin = pe.PhaseExecutorThread._thread_finished
 
+    # ... for a body that raised, the time is spent in a slow log handler instead (the thread logs the
+    # exception from its handler): what the executor decides must not depend on where the thread lingers
+    slow_log = bool(row.get('L')) and row['res'] == 'E'
+
     def slow_finished(self):
-      if self._phase_desc.name == 'p' and row.get('L'):
+      if self._phase_desc.name == 'p' and row.get('L') and not slow_log:
         time.sleep(row['L'] / 2.0)
       return orig_fin(self)
+
+    import logging
+    import threading as _th
+
+    class SlowHandler(logging.Handler):
+      done = False
+
+      def handle(self, record):     # not emit(): the handler lock must not be held while this thread dawdles
+        if slow_log and not SlowHandler.done and 'p.end' in dict(log) and _th.current_thread().name.startswith('<PhaseExecutorThread'):
+          SlowHandler.done = True
+          time.sleep(row['L'] / 2.0)
+    sh = SlowHandler()
+    logging.getLogger('openhtf').addHandler(sh)
     pe.PhaseExecutorThread._thread_finished = slow_finished
     try:
       t.execute()
     finally:
       pe.PhaseExecutorThread._thread_finished = orig_fin
+      logging.getLogger('openhtf').removeHandler(sh)
     box['rec'] = out[0]
     box['log'] = [(e[0], round(e[1] - t0, 3)) for e in log]
   s = sched.Sched(max_steps=200000)
